@@ -23,21 +23,6 @@ NOT_DECIDED = 'value equality after arbitrary input changes'
 TRUSTED = ['copy.deepcopy yields an independent object graph', 'workbook scenarios: pandas storage of range arrays as row-major rows, numpy on Python numbers (IEEE results, 64-bit integer wrap), dateutil.parser.parse rejecting texts that are no dates, openpyxl address arithmetic, inspect.signature built from the FunctionDef', 'copy protocol: __getstate__ / __setstate__ honoured by deepcopy']
 
 
-def _extract(ctx):
-    mm = ctx.mod('model')
-    fn = mm.func('ModelCompiler.extract')
-    p = func_params(fn)
-    if len(p) < 2:
-        raise Unmodelled('extract(model, focus)')
-    ext = None
-    for a in walk_local(fn):
-        if isinstance(a, ast.Assign) and isinstance(a.value, ast.Call) and ctx.res.resolve(a.value.func, mm) == 'pkg:model:Model':
-            ext = a.targets[0].id
-    if ext is None:
-        raise AnchorMissing('extract: construction of the extracted Model')
-    return mm, fn, p[0], ext
-
-
 def _model(cells=None, defined_names=None):
     """Abstract Model instance: the four maps; its real methods are inlined on demand, build_code is counted."""
     return Rec(cls='pkg:model:Model', cells=cells if cells is not None else {}, defined_names=defined_names if defined_names is not None else {},
